@@ -652,17 +652,25 @@ def run_c15(ctx):
             vecs += read_ndjson(os.path.join(g["dir"], f))
     if not vecs:
         raise Infra("generator produced no instances")
-    cases, lines_of = [], []
-    for i, v in enumerate(vecs):
-        mods, lo = render_c15(v)
-        cases.append(dict(id=i, mods=mods, xp=True, off=[]))
-        lines_of.append(lo)
+    # (cases and results are streamed: the rendered modules are not kept - a failing case is rendered again for its replay
+    # record - and of a result only verdicts, error texts and compiled expressions are)
+    lines_of = []
     cin, cout = ctx.path("c15_cases.ndjson"), ctx.path("c15_res.ndjson")
-    write_ndjson(cin, cases)
-    ctx.run_bin("cc", ["run", "-in", cin, "-out", cout, "-k", "2", "-workers", "14"], timeout=2400)
-    res = read_ndjson(cout)
-    if len(res) != len(cases):
-        raise Infra("cc run returned %d results for %d cases" % (len(res), len(cases)))
+    with open(cin, "w") as f:
+        for i, v in enumerate(vecs):
+            mods, lo = render_c15(v)
+            f.write(json.dumps(dict(id=i, mods=mods, xp=True, off=[]), separators=(",", ":")) + "\n")
+            lines_of.append(lo)
+    ctx.run_bin("cc", ["run", "-in", cin, "-out", cout, "-k", "2", "-workers", "14", "-lean"], timeout=2400)
+    res = []
+    with open(cout) as f:
+        for line in f:
+            if line.strip():
+                o = json.loads(line)
+                res.append(dict(runs=[dict(verdict=r["verdict"], err=r["err"][:2000]) for r in o["runs"]], xps=o["xps"]))
+    if len(res) != len(vecs):
+        raise Infra("cc run returned %d results for %d cases" % (len(res), len(vecs)))
+    cases = [dict(id=i) for i in range(len(vecs))]
     lines, nxp = [], 0
     for v, c, o, lo in zip(vecs, cases, res, lines_of):
         inst = dict(cfg=v["cfg"], stmts=[{k: s[k] for k in ("kind", "place", "T", "U", "V", "e", "pf", "on", "hp", "mut", "sp")} for s in v["stmts"]])
@@ -704,7 +712,8 @@ def run_c15(ctx):
         f2.result()
     ctx.traces += runs
     for f in fails:
-        v, c, o = vecs[f["id"]], cases[f["id"]], res[f["id"]]
+        v, o = vecs[f["id"]], res[f["id"]]
+        c = dict(id=f["id"], mods=render_c15(v)[0])
         sig = dict(site="compile", what=f["what"], kind=f["kind"], place=f["place"], detail=f["detail"], written_in=f["unit"], form=f.get("form", ""))
         ctx.disagree(sig, f"{f['what']} ({f['detail']}{', prefix used as ' + f['form'] if f.get('form') else ''}) for a {f['kind']} statement placed {f['place']}",
                      dict(kind="trace", failure=f, modules=c["mods"], spec=dict(verdict=v["verdict"], stmts=v["stmts"], badStmts=v["badStmts"]),
